@@ -5,6 +5,8 @@ from __future__ import annotations
 
 import nodesim as NS
 
+NS_T0 = 1_700_000_000      # nodesim.T0: creation time of every simulated node (its Origin-State-Id)
+
 
 class Trace:
     def __init__(self, cfg, events, obs):
@@ -34,7 +36,9 @@ class Trace:
                     for realm in [p["realm"]] + list(cfg.get("extra_realms", {}).get(i) or []):
                         routes.setdefault(realm, {}).setdefault(i, []).append(p["name"])
         for p in cfg["peers"]:
-            routes.setdefault(p["realm"], {})
+            # a realm is served through a DEFAULT peer as well; a peer that is merely known there does not make it so
+            if p.get("default"):
+                routes.setdefault(p["realm"], {})
         return routes
 
 
@@ -287,7 +291,10 @@ def c09(tr, viol):
             sent_on = [cid for cid, ms in o["sends"].items() if any((not s["req"]) and s["hbh"] == key[0] and s["e2e"] == key[1] for s in ms)]
             res = o["results"][0] if o["results"] else None
             if want_cid is not None and ok_conn:
-                if sent_on == [] and want_cid in o["stalled"] and res == "ok":
+                if res not in ("ok", None):
+                    viol("answer-accepted", case_of(tr, i, {"requester": want_cid}), res, "ok",
+                         what="the submission of an answer whose requester is connected and ready failed with " + str(res))
+                elif sent_on == [] and want_cid in o["stalled"] and res == "ok":
                     pass          # accepted; held back by the socket
                 elif sent_on != [want_cid]:
                     twin = [c[0] for c in before["conns"] if cb and c[0] != want_cid and c[4] == cb[4]]
@@ -322,6 +329,10 @@ def c11(tr, viol):
                     dwa = next((s for s in o["sends"].get(e["cid"], []) if s["cmd"] == "DW" and not s["req"] and s["hbh"] == fr["hbh"]), None)
                     if dwa is None or dwa["result"] != 2001:
                         viol("dwr-answered", case_of(tr, i), dwa, what="a DWR on a ready connection was not answered 2001")
+                    elif "osid" in dwa and dwa["osid"] != NS_T0:
+                        # the node's state id is the (virtual) time at which it was created
+                        viol("dwr-answered", case_of(tr, i), {"origin_state_id": dwa["osid"]}, {"origin_state_id": NS_T0},
+                             what="the DWA does not carry the node's own Origin-State-Id")
         for c in snap["conns"]:
             last_read.setdefault(c[0], now if c[0] not in last_read else last_read[c[0]])
         for cid, ms in o["sends"].items():
@@ -472,6 +483,8 @@ def c17(tr, viol):
             for k, fr in enumerate(tr.frames[i]):
                 if not (fr["req"] and cb and cb[2] in (2, 3, 4) and len(tr.frames[i]) == 1):
                     continue
+                if cid in o["closed"]:
+                    continue      # the timer pass of this very wake-up closed the connection before the frame was read
                 origin = fr["origin"][1].lower() if fr["origin"][0] == "Present" else None
                 ans = next((s for s in o["sends"].get(cid, []) if not s["req"] and s["hbh"] == fr["hbh"] and s["e2e"] == fr["e2e"]), None)
                 deliv = [d for d in o["delivered"] if d[1] == fr["hbh"] and d[2] == fr["e2e"]]
@@ -643,6 +656,9 @@ def c18(tr, viol):
                     viol("all-closed", case_of(tr, i), {"connections": [c[0] for c in o["snap"]["conns"]], "open_sockets": o["open_sockets"],
                                                        "listeners_open": o["listeners_open"]},
                          what="after stop() returned a peer or listening socket is still open")
+                if e.get("returned") and "apps_stopped" in o and o["apps_stopped"] != list(range(o.get("n_apps", 0))):
+                    viol("apps-stopped", case_of(tr, i), {"stopped": o["apps_stopped"], "applications": o.get("n_apps")},
+                         what="stop() returned but not every application was stopped")
                 workers = {k: v for k, v in o["live_threads"].items() if k not in ("spawn",)}
                 if workers:
                     viol("threads-terminate", case_of(tr, i), workers, what="node / connection worker threads still alive after stop()")
